@@ -126,6 +126,42 @@ def merge(out, known, viols):
     out["viols"].extend(viols)
 
 
+ML_LINES = [". ", ".\t", ". \t ", "..", "...", ".x", ". x", " .", "\t.", "", " ", "text:", "text:\t", ";", "keep;", "stop ;",
+            "# c", "/* c", "*/", '"', '\\"', "a", "a.", "é☃", "}", "{", ". ;", ".;", "..;", "reject text:", ".text:"]
+ML_HEADS = ["text:", "text: ", "text:\t \t", "text: # note", "text:#.", "TEXT:", "Text: \t#x ."]
+
+
+def ml_shapes(rng, n):
+    """multi-line strings in their legal lexical shapes (RFC 5228 2.4.2 / 8.1): blanks or a hash comment after
+    `text:', unnecessarily dot-stuffed lines (a dot followed by blanks is content), lines that look like the
+    terminator, like another opener or like commands -- as the argument of a few carriers, followed by more script"""
+    out = []
+    # a string whose content, were it ended early at one of its lines, continues as a valid script: a lexer that
+    # takes that line for the terminator then *accepts*, with another tree
+    for x in ML_LINES:
+        for eol in ("\n", "\r\n"):
+            for head in (ML_HEADS[0], rng.choice(ML_HEADS[1:5])):
+                txt = ('require "reject";' + eol + "reject " + head + eol + "first" + eol + x + eol + "; reject text:" + eol
+                       + "no thanks" + eol + "." + eol + "; keep;" + eol)
+                out.append(txt.encode("utf-8"))
+    for _ in range(n):
+        eol = rng.choice(["\n", "\r\n"])
+        def ml():
+            body = [rng.choice(ML_LINES) for _ in range(rng.randrange(0, 5))]
+            return eol.join([rng.choice(ML_HEADS)] + body + ["."]) + eol
+        form = rng.randrange(4)
+        if form == 0:
+            txt = 'require "reject"; reject ' + ml() + "; keep;" + eol
+        elif form == 1:
+            txt = 'require ["vacation"];' + eol + "vacation :subject " + ml() + " :from " + ml() + ml() + ";" + eol
+        elif form == 2:
+            txt = "if header :is " + ml() + "[" + ml() + ", " + ml() + "] { redirect " + ml() + "; }" + eol + "stop;"
+        else:
+            txt = 'require ["fileinto", "reject"]; if true { reject ' + ml() + "; } else { fileinto " + ml() + " ; }" + eol
+        out.append(txt.encode("utf-8"))
+    return out
+
+
 def driver(prop, tier, seed, devs):
     rng = random.Random(seed * 7919 + 13)
     out = {"name": "trace_validation", "states": 0, "transitions": 0, "parses": 0, "known": {}, "viols": [],
@@ -206,6 +242,8 @@ def driver(prop, tier, seed, devs):
                                 [("id", "require"), ("str", "vacation"), ("semi", ""), ("id", "vacation"), ("tag", ":from"), tv, ("tag", ":handle"), tv, ("tag", ":addresses"), tv, ("tag", ":subject"), tv, tv, ("semi", "")]):
                     for lay in ("space", "crlf"):
                         batch.append(R.render(carrier, lay)[0])
+    if prop in ("C01", "C03", "C04", "C18"):
+        batch.extend(ml_shapes(rng, 150 if tier == "quick" else 4000))
     if prop in ("C01", "C07", "C03"):
         # the same valid scripts with their `require` written in other legal ways: several commands, single strings,
         # duplicates before new names, other order
